@@ -831,6 +831,10 @@ func (e *Exec) exec1(op string, pos []string, kv map[string]string, line string)
 			}
 			fired = true
 			kvmem.ClearHooks()
+			if kv["g2"] == "1" {
+				// a second reader runs completely (and fills the balance cache) before the admission: three actors
+				w.Main.S.GetBalance(addr)
+			}
 			c := *t.Tx
 			errT = w.Main.S.DoTx(&c)
 		})
